@@ -264,6 +264,80 @@ pub fn run(ctx: &Ctx) -> i32 {
         done += 1;
     }
     col.layer("cut law (stateright BFS per statement)", done, complete, json!({"statements": ncut, "depth": depth}));
+    // long inputs: (a) line boundaries aligned with the reader's 8192-byte buffer, (b) more distinct values per group than
+    // any small-collection optimisation would hold; the result must not depend on alignment, order or rotation
+    {
+        let lt = sut::make_tables("CREATE TABLE g(line = '^k=([a-z]+) v=([0-9]+)$', line[1] => k TEXT, line[2] => v INT);").unwrap();
+        let st = sut::parse("SELECT k, COUNT(*), SUM(v), MIN(v), MAX(v), COUNT(DISTINCT v) FROM g GROUP BY k").unwrap();
+        let mut nl = 0u64;
+        for pad in 0..=9usize {
+            for rev in [false, true] {
+                let mut content: Vec<u8> = Vec::new();
+                if pad > 0 {
+                    content.extend(std::iter::repeat(b'#').take(pad - 1));
+                    content.push(b'\n');
+                }
+                let n = 2100usize;
+                let idx: Vec<usize> = if rev { (0..n).rev().collect() } else { (0..n).collect() };
+                for i in idx {
+                    content.extend_from_slice(format!("k={} v={}\n", if i % 2 == 0 { "a" } else { "b" }, i % 7).as_bytes());
+                }
+                let r = sut::run_files(&lt, &st, &[content.as_slice()], sut::FileRunOpts::default());
+                nl += 1;
+                col.eval(1);
+                col.nontrivial(h64(&("long-a", pad, rev)));
+                let expect = vec!["{\"k\":\"a\",\"count1\":1050,\"sum2\":3150,\"min3\":0,\"max4\":6,\"count5\":7}".to_string(), "{\"k\":\"b\",\"count1\":1050,\"sum2\":3150,\"min3\":0,\"max4\":6,\"count5\":7}".to_string()];
+                // values: i even -> i%7 over evens, i odd -> odds: both cover 0..6 equally (2100 = 300*7): sums = 150 * (0+..+6) = 3150
+                let got = match &r {
+                    Outcome::Ok(fr) => fr.printed.clone(),
+                    o => vec![format!("{}", o.kind())],
+                };
+                if got != expect {
+                    col.fail(fail(
+                        "long-input:buffer-alignment".into(),
+                        format!("aggregates over 2100 eight-byte lines after a {}-byte pad line ({} order): {:?}", pad, if rev { "reversed" } else { "forward" }, got),
+                        json!({"law": "long-a", "pad": pad, "reversed": rev}),
+                        json!(expect),
+                        json!(got),
+                        pad as u64,
+                    ));
+                }
+            }
+        }
+        let st2 = sut::parse("SELECT k, COUNT(DISTINCT v), COUNT(*) FROM g GROUP BY k HAVING COUNT(DISTINCT v) = 41").unwrap();
+        for rot in 0..41usize {
+            for order in 0..3 {
+                let vals: Vec<usize> = (0..41).map(|i| (i + rot) % 41).collect();
+                let seq: Vec<usize> = match order {
+                    0 => vals.iter().chain(vals.iter()).cloned().collect(),
+                    1 => vals.iter().chain(vals.iter().rev()).cloned().collect(),
+                    _ => vals.iter().flat_map(|v| vec![*v, *v]).collect(),
+                };
+                let content: String = seq.iter().map(|v| format!("k=a v={}\n", v)).collect();
+                let r = sut::run_files(&lt, &st2, &[content.as_bytes()], sut::FileRunOpts::default());
+                nl += 1;
+                col.eval(1);
+                col.nontrivial(h64(&("long-b", rot, order)));
+                let got = match &r {
+                    Outcome::Ok(fr) => fr.printed.clone(),
+                    o => vec![format!("{}", o.kind())],
+                };
+                let expect = vec!["{\"k\":\"a\",\"count1\":41,\"count2\":82}".to_string()];
+                if got != expect {
+                    col.fail(fail(
+                        "long-input:many-distinct-values".into(),
+                        format!("COUNT(DISTINCT v) over 41 distinct values each arriving twice (rotation {}, order {}): {:?}", rot, order, got),
+                        json!({"law": "long-b", "rotation": rot, "order": order}),
+                        json!(expect),
+                        json!(got),
+                        rot as u64,
+                    ));
+                }
+            }
+        }
+        col.layer("long inputs (buffer alignment; many distinct values in every arrival order family)", nl, true, json!({"lines": 2100, "pads": "0..=9", "distinct_values": 41}));
+        col.sample(json!({"law": "long-b", "statement": "SELECT k, COUNT(DISTINCT v), COUNT(*) FROM g GROUP BY k HAVING COUNT(DISTINCT v) = 41", "input": "41 distinct values, each twice, rotated"}));
+    }
     finish(
         ctx,
         &col,
